@@ -541,7 +541,10 @@ def install_stubs(classes):
 
 def make_stub(name, orig_func, current):
     def stub(cls, cell_slice, *args, **kwargs):
-        if isinstance(cell_slice, SymSlice) and (current["name"] or "").split("(")[0] != name:
+        # a subclass delegating with super().deserialize(...) passes ITS class: the parent's code then builds an instance of
+        # the subclass, so the call is traced through (inlined) instead of being recorded as a call of the parent type
+        inherited = getattr(cls, "__name__", name) != name
+        if isinstance(cell_slice, SymSlice) and (current["name"] or "").split("(")[0] != name and not inherited:
             if kwargs:
                 raise Unsupported(f"nested {name}.deserialize with keyword arguments")
             conc = []
